@@ -23,6 +23,10 @@ use serde_json::json;
 pub enum Op {
     Insert(u8),
     Remove(u8),
+    /// `GenericWriteStorage::insert` / `remove` (even positions through the impl for `WriteStorage`,
+    /// odd ones through the impl for `&mut WriteStorage`; the other way round for remove)
+    GenInsert(u8),
+    GenRemove(u8),
     GetMutWrite(u8),
     /// get_mut without a mutable dereference (reads through Deref only).
     GetMutPeek(u8),
@@ -280,6 +284,48 @@ impl<'c, T: Kind, U: Kind> Run<'c, T, U> {
                 } else {
                     exp.insrem.push(ComponentEvent::Inserted(id));
                     exp.modified.insert(id, M::May);
+                }
+            }
+            Op::GenInsert(e) => {
+                let h = self.ents[*e as usize];
+                let id = h.id();
+                let v = self.fresh();
+                let old = self.model.insert(id, v);
+                let got = {
+                    let mut st = self.w.write_storage::<T>();
+                    let r = if e % 2 == 0 { GenericWriteStorage::insert(&mut st, h, T::make(v)) } else { GenericWriteStorage::insert(&mut &mut st, h, T::make(v)) };
+                    r.map(|o| o.map(|t| t.returned()))
+                };
+                match got {
+                    Ok(g) => {
+                        self.obs_opt(g);
+                        if g != old.map(Self::zv) {
+                            fail!(self, "return-value: GenericWriteStorage::insert({}) returned {:?}, map model {:?}", id, g, old);
+                        }
+                    }
+                    Err(_) => fail!(self, "return-value: GenericWriteStorage::insert({}) on a live entity failed", id),
+                }
+                if old.is_some() {
+                    exp.modified.insert(id, M::Must);
+                } else {
+                    exp.insrem.push(ComponentEvent::Inserted(id));
+                    exp.modified.insert(id, M::May);
+                }
+            }
+            Op::GenRemove(e) => {
+                let h = self.ents[*e as usize];
+                let id = h.id();
+                let old = self.model.remove(&id);
+                {
+                    let mut st = self.w.write_storage::<T>();
+                    if e % 2 == 1 {
+                        GenericWriteStorage::remove(&mut st, h)
+                    } else {
+                        GenericWriteStorage::remove(&mut &mut st, h)
+                    }
+                }
+                if old.is_some() {
+                    exp.insrem.push(ComponentEvent::Removed(id));
                 }
             }
             Op::Remove(e) => {
@@ -1072,6 +1118,9 @@ impl<'c, T: Kind, U: Kind> Run<'c, T, U> {
                 continue;
             }
             v.extend([Op::Insert(e), Op::Remove(e), Op::GetMutWrite(e)]);
+            if matches!(p, Prop::C04 | Prop::C19) || (p == Prop::C12 && e < 2) {
+                v.extend([Op::GenInsert(e), Op::GenRemove(e)]);
+            }
             if p == Prop::C19 {
                 v.push(Op::InsertOther(e));
                 v.push(Op::DeleteNow(e));
@@ -1714,6 +1763,10 @@ pub fn all_kinds() -> Vec<KindEntry> {
         ke!(DHash, CDense2),
         ke!(DBTree, CVec2),
         ke!(DNull, CDense2),
+        ke!(PVec, CDense2),
+        ke!(PDense, CVec2),
+        ke!(PDefVec, CHash2),
+        ke!(PHash, CDense2),
     ]
 }
 
@@ -1752,6 +1805,10 @@ pub fn plan(prop: Prop, thorough: bool) -> Vec<(usize, Cfg)> {
         if prop == Prop::C12 && k.track == Track::None {
             continue;
         }
+        // plain-data kinds have no destructor to fail
+        if prop == Prop::C19 && k.name.starts_with('P') {
+            continue;
+        }
         for (li, layout) in layouts.iter().enumerate() {
             // quick C12: the boundary layout for four representative wrapper/inner pairs only
             if prop == Prop::C12 && !thorough && li > 0 && !["FVec", "FDense", "DVec", "DHash"].contains(&k.name) {
@@ -1761,6 +1818,10 @@ pub fn plan(prop: Prop, thorough: bool) -> Vec<(usize, Cfg)> {
             // drop has no guard), so keep the default-filled gaps short there
             let layout = if prop == Prop::C19 && k.name.contains("DefVec") && layout.iter().any(|i| *i > 8) {
                 &vec![0u32, 2, 5]
+            } else if prop == Prop::C12 && !thorough && li > 0 && k.name != "FDense" {
+                // (rebuilding 4097 entities per transition is the dominant cost: one kind keeps the
+                // 4095/4096 boundary in the quick tier, the others straddle the word boundary only)
+                &vec![5u32, 63, 64]
             } else {
                 layout
             };
@@ -1769,6 +1830,11 @@ pub fn plan(prop: Prop, thorough: bool) -> Vec<(usize, Cfg)> {
                 Prop::C20 => 3,
                 _ => 16,
             };
+            // quick C04: the far-apart layout (beyond 64^3) for the map-backed kinds, whose world is cheap to rebuild
+            if prop == Prop::C04 && !thorough && li == 0 && ["CHash", "PHash", "FBTree"].contains(&k.name) {
+                let far = vec![1u32, 262143, 262144];
+                out.push((ki, Cfg { prop, layout: far.clone(), max_depth: depth, max_lazy: 1, late_reader: false, perturb: false, note_prefix: format!("{{\"engine\":\"mc-store\",\"property\":\"{:?}\",\"kind\":\"{}\",\"layout\":{:?},\"oracle\":\"process crash inside a specs operation\",\"ops\":", prop, k.name, far) }));
+            }
             out.push((ki, Cfg { prop, layout: layout.clone(), max_depth: depth, max_lazy: if thorough { 2 } else { 1 }, late_reader: thorough || ["FVec", "DDense"].contains(&k.name), perturb: false, note_prefix: format!("{{\"engine\":\"mc-store\",\"property\":\"{:?}\",\"kind\":\"{}\",\"layout\":{:?},\"oracle\":\"process crash inside a specs operation\",\"ops\":", prop, k.name, layout) }));
         }
     }
